@@ -28,6 +28,18 @@ VERIF = os.path.dirname(os.path.dirname(os.path.abspath(__file__)))
 NCPU = int(os.environ.get("VERIF_JOBS", "16"))
 
 
+CLEANUP = []  # callables run at the end of every task (children leave through os._exit)
+
+
+def run_cleanup():
+    while CLEANUP:
+        fn = CLEANUP.pop()
+        try:
+            fn()
+        except Exception:
+            pass
+
+
 class Violation(Exception):
     """The code under test broke the property on the current case."""
 
@@ -271,6 +283,8 @@ def _task(pmod, sub, tier, seed, shard, nshards, marker_path):
         out["harness_error"] = "%s\n%s\ncase=%s" % (
             repr(e), traceback.format_exc(), json.dumps(jsonable(rec.current), default=str)[:2000]
         )
+    finally:
+        run_cleanup()
     out["rec"] = rec.export()
     out["wall"] = time.time() - t0
     return out
@@ -471,6 +485,7 @@ def _replay_child(conn, pmod, path):
         conn.send(("ok", replay_file(pmod, path)))
     except BaseException as e:
         conn.send(("err", "%r\n%s" % (e, traceback.format_exc())))
+    run_cleanup()
     os._exit(0)
 
 
